@@ -419,6 +419,36 @@ Example C07_refuted_assignment_named_size_after_string_type_rejected :
   = Some [TOctetString SAny; TInteger (None, None, false) []].
 Proof. repeat split; vm_compute; reflexivity. Qed.
 
+(* DEFAULT <identifier>: the named numbers of the component's own INTEGER type are never consulted: without a value of
+   that name the legal module is rejected (FailedToResolveReference), with one the value (50) is taken, not the named
+   number (5) *)
+Definition resolve_error_of (s : string) : option rerr :=
+  match tokenize dev_mode (s2n s) with
+  | Ok ts => match parse ts with
+             | POk u => match resolve_single u with RErr e => Some e | _ => None end
+             | _ => None
+             end
+  | _ => None
+  end.
+
+Example C07_refuted_default_named_number_not_consulted :
+  resolve_error_of "M DEFINITIONS ::= BEGIN S ::= SEQUENCE { n INTEGER { medium(5) } DEFAULT medium } END"
+  = Some (FailedToResolveReference (s2n "medium")) /\
+  def_types "M DEFINITIONS ::= BEGIN medium INTEGER ::= 50 S ::= SEQUENCE { n INTEGER { medium(5) } DEFAULT medium } END"
+  = Some [TSequence [(s2n "n", (None, TInteger (None, None, false) [(s2n "medium", 5%Z)], Some (LInteger 50)))] None].
+Proof. split; vm_compute; reflexivity. Qed.
+
+(* DEFAULT <item> through a type reference to the ENUMERATED: only a definition that is itself an ENUMERATED is
+   inspected; compare the direct reference, which gives the item with or without the value *)
+Example C07_refuted_default_item_through_reference_chain_not_followed :
+  resolve_error_of "M DEFINITIONS ::= BEGIN Level ::= ENUMERATED { low, medium, high } L2 ::= Level S ::= SEQUENCE { x L2 DEFAULT medium } END"
+  = Some (FailedToResolveReference (s2n "medium")) /\
+  def_types "M DEFINITIONS ::= BEGIN Level ::= ENUMERATED { low, medium } L2 ::= Level medium INTEGER ::= 50 S ::= SEQUENCE { x L2 DEFAULT medium, y Level DEFAULT medium } END"
+  = Some [TEnumerated [(s2n "low", None); (s2n "medium", None)] None; TRef (s2n "Level") None;
+          TSequence [(s2n "x", (None, TRef (s2n "L2") None, Some (LInteger 50)));
+                     (s2n "y", (None, TRef (s2n "Level") None, Some (LEnumVariant (s2n "Level") (s2n "medium"))))] None].
+Proof. split; vm_compute; reflexivity. Qed.
+
 Print Assumptions C07_parse_print_tag_partial.
 Print Assumptions C07_parse_print_opt_tag_partial.
 Print Assumptions C07_parse_print_size_partial.
@@ -449,3 +479,5 @@ Print Assumptions C07_refuted_empty_string_literal_rejected.
 Print Assumptions C07_refuted_string_literal_quote_escape_rejected.
 Print Assumptions C07_refuted_hex_literal_odd_digits_padded_in_front.
 Print Assumptions C07_refuted_assignment_named_size_after_string_type_rejected.
+Print Assumptions C07_refuted_default_named_number_not_consulted.
+Print Assumptions C07_refuted_default_item_through_reference_chain_not_followed.
